@@ -18,11 +18,17 @@ extend_propagators extend_segIntegrand finProd_first_val finProd_second_val kron
 kronBasis_isComplete kronBasis_isOrthoHerm kron_isEigh kron_isEigh_prod kron_liouville
 kron_propagators kron_propagators_model kron_segProp kron_segProp_of_isEigh
 kron_total_propagator_model pauliN_ortho_zero pauliN_zero tensorMat_toMatrix tensorSumVec_eq
-trace_basis_sqrt trace_kronFin_conj trace_kron_basis'''.split()
+trace_basis_sqrt trace_kronFin_conj trace_kron_basis'''.split() + ['FFVerif.C05d.' + t for t in '''
+ff_grid_sound ff_grid_iff cached_iff_grid forced_ff_never_silently_skipped disabled_ff_never_cached
+auto_ff_iff auto_no_omega_error extended_requires_pauli extended_iff recomputed_iff diag_wanted_iff
+diag_iff diag_cached_iff additional_rows addRows_iff error_iff no_other_errors early_return_nothing
+returned_iff input_side_effects inputs_untouched_of_not_pauli remap_keeps_diag remap_cm_iff
+remap_omega_iff remap_lazy_iff remap_not_pauli_blocks_auto'''.split()]
+LEAN_MODULES = ['FFVerif.Props.C05', 'FFVerif.Props.C05d']
 PINS = ['pinExtend', 'pinRemap']
 GEN_SITES = ['einsum:numeric_calculate_filter_function_0',
              'einsum:numeric_calculate_control_matrix_from_scratch_0']
-COMPONENTS = ['pauli_equiv']
+COMPONENTS = ['pauli_equiv', 'extend_decision']
 RULES = ['correspondence: equivalent_pauli_basis_elements vs the Lean index map for all subsets, '
          'N <= 4 (the extension rules are theorems about the control-matrix model of C01); search: '
          'extend() on 1..3 single- and two-qubit pulses mapped to distinct, possibly '
@@ -38,7 +44,24 @@ TRUSTED = ['modelled not verified: the qubit-list parsing of extend and _merge_a
            '_insert_attrs (covered by search)']
 
 
+def decision_correspondence(ctx):
+    """what `extend` / `remap` compute or carry over (diagonalisation, control matrix / filter function,
+    on which grid, extended or recomputed, rows of the additional noise operators, side effects on
+    the inputs, exception classes) vs the Lean model `ExtendLogic`: abstract inputs are realised by
+    real pulses, the real functions run under counting wrappers"""
+    from . import extendlogic
+    n, counts, mism = extendlogic.run(300 if ctx.tier == 'quick' else 5000,
+                                      int(ctx.rng('decision').integers(0, 2**31)))
+    for k, v in counts.items():
+        ctx.stat('decision ' + k, v)
+    for _ in range(n):
+        ctx.count()
+    ctx.oblige('correspondence:extend_decision', 'correspondence', not mism,
+               f'{len(mism)} of {n} decisions disagree; first: {mism[:2]}')
+
+
 def correspondence(ctx):
+    decision_correspondence(ctx)
     lines, refs = [], []
     for N in range(1, 5):
         for k in range(1, N + 1):
